@@ -102,3 +102,33 @@ Definition rr_ok (n : N) : bool :=
   end.
 Theorem C02_round_robin_finality_partial : forall n, In n (map N.of_nat (seq 1 12)) -> rr_ok n = true.
 Proof. intros n H. cbn in H. repeat (destruct H as [<-|H]; [vm_compute; reflexivity|]). contradiction. Qed.
+
+(* ------------------------------------------------------------------ generator keys (SetGeneratorKeys / GetGeneratorKeys /
+   deleteGeneratorKeys / Generators.AtTimestamp) and convert.go *)
+From LE Require Import BFT.GenKeys BFT.GenKeysProofs.
+
+(* pruning (same bound as for the BFT parameters) never changes the generator list of a height at or above the bound *)
+Theorem C02_generator_keys_prune_stable : forall (ks : @kstore generators) m h, ksorted ks -> m <= h ->
+  klookup (kprune ks m) h None = klookup ks h None.
+Proof. exact kprune_lookup. Qed.
+
+(* keys set for height k (= tip+1) are what every lookup at h >= k returns until the next set, and do not affect lower heights *)
+Theorem C02_generator_keys_set_visible : forall (ks : @kstore generators) k g h, k <= h -> ksorted ks ->
+  (forall k' g', In (k', g') ks -> k' <= k) -> klookup (kinsert ks k g) h None = Some g.
+Proof. exact kinsert_lookup_at. Qed.
+Theorem C02_generator_keys_set_no_effect_below : forall (ks : @kstore generators) k g h best, h < k ->
+  klookup (kinsert ks k g) h best = klookup ks h best.
+Proof. exact kinsert_lookup_below. Qed.
+
+(* the generator assigned to a slot is always one of the configured generators, and exists whenever the list is non-empty *)
+Theorem C02_slot_generator_is_configured : forall gens slot,
+  (forall g, generator_at gens slot = Some g -> In g gens) /\ (gens <> [] -> exists g, generator_at gens slot = Some g).
+Proof. intros. split; [apply generator_at_in|apply generator_at_total]. Qed.
+
+(* convert.go: splitting the application's validator list into BFT validators (positive weight) and generators (all) and
+   converting back is lossless when addresses are distinct and zero-weight entries carry the empty BLS key *)
+Theorem C02_convert_roundtrip : forall (l : list labi_validator) e,
+  NoDup (map (fun v => let '(a, _, _, _) := v in a) l) ->
+  (forall a g w b, In (a, g, w, b) l -> w = 0 -> b = e) ->
+  labi_of (bft_validators_of l) (generators_of l) e = l.
+Proof. exact convert_roundtrip. Qed.
